@@ -322,3 +322,21 @@ impl Collect for SharedBye {
         self.inner.current_span()
     }
 }
+
+/// Hand the recording collector to `Dispatch::new` the ways programs do: as the value itself,
+/// or behind the `Arc<C>` / `Box<C>` / `Box<dyn Collect>` implementations of `Collect` that
+/// tracing-core provides (each of which must forward every method, `register_callsite` and
+/// `max_level_hint` included).  `how` is reduced modulo 4.
+pub fn dispatch_of(a: std::sync::Arc<FilterCollector>, how: u64) -> tracing_core::Dispatch {
+    use tracing_core::Dispatch;
+    match how % 4 {
+        0 => Dispatch::new(Shared(a)),
+        1 => Dispatch::new(std::sync::Arc::new(Shared(a))),
+        2 => Dispatch::new(Box::new(Shared(a))),
+        _ => {
+            let b: Box<dyn Collect + Send + Sync> = Box::new(Shared(a));
+            Dispatch::new(b)
+        }
+    }
+}
+pub const DISPATCH_HOW: [&str; 4] = ["C", "Arc<C>", "Box<C>", "Box<dyn Collect>"];
